@@ -864,3 +864,113 @@ Proof.
   destruct H3 as [HJ3 Hc3].
   eapply update_entry_pres; [exact HE|exact HJ3| |exact H]. apply ue_guardb_of_cand. exact Hc3.
 Qed.
+
+(* ------------------------------------------------------------------ every operation of the alphabet *)
+(* forget_oid (no caller in the engine) is outside: it detaches an entry that keeps its id, see forget_refuted *)
+Definition op_guardb (E : env) (s : state) (o : op) : bool :=
+  match o with
+  | OUpdate sd ot oid path h ex prior => upd_guardb E s sd ot oid path prior
+  | OSet e sd (FPath v) => path_guardb E s e sd v
+  | OMove d sr sd => mv_guardb E s d sr sd
+  | OUpdEnt e sd oid path h ex c ot => ue_guardb E s e sd oid path ot
+  | OForget _ _ => false
+  | _ => true
+  end.
+
+Lemma apply_op_guarded_pres E s o s' :
+  env_ok E -> IdxJ s -> op_guardb E s o = true -> apply_op E s o = Ok s' -> IdxJ s'.
+Proof.
+  intros HE HJ Hg H. destruct o; simpl in H, Hg.
+  - eapply update_pres; eassumption.
+  - destruct w.
+    + eapply set_path_pres; eassumption.
+    + eapply set_oid_pres; eassumption.
+    + eapply set_changed_pres; eassumption.
+    + eapply set_plain_pres; [|exact HJ|exact H]; intros y; split; reflexivity.
+    + eapply set_plain_pres; [|exact HJ|exact H]; intros y; split; reflexivity.
+    + eapply set_plain_pres; [|exact HJ|exact H]; intros y; split; reflexivity.
+    + eapply set_plain_pres; [|exact HJ|exact H]; intros y; split; reflexivity.
+    + eapply set_plain_pres; [|exact HJ|exact H]; intros y; split; reflexivity.
+    + eapply set_plain_pres; [|exact HJ|exact H]; intros y; split; reflexivity.
+  - eapply set_ignored_pres; eassumption.
+  - eapply set_priority_pres; eassumption.
+  - eapply split_pres; eassumption.
+  - eapply finished_pres; eassumption.
+  - discriminate.
+  - eapply mark_changed_pres; eassumption.
+  - eapply move_side_pres; eassumption.
+  - eapply update_entry_pres; eassumption.
+  - eapply set_ignored_pres; eassumption.
+Qed.
+
+(* the guard does not look at the tape *)
+Lemma op_guardb_tape E s t o : op_guardb E (st_tape s t) o = op_guardb E s o.
+Proof. reflexivity. Qed.
+
+Lemma step_guarded_pres E s ot s' :
+  env_ok E -> IdxJ s -> op_guardb E s (fst ot) = true -> step E s ot = Ok s' -> IdxJ s'.
+Proof.
+  intros HE HJ Hg H. unfold step in H. bind_inv2 H s1 E1. destruct (tape s1); [|discriminate]. injection H as <-.
+  eapply apply_op_guarded_pres; [exact HE| |rewrite op_guardb_tape; exact Hg|exact E1].
+  apply (IdxJ_view s); [reflexivity|exact HJ].
+Qed.
+
+(* every operation of the run satisfies its guard in the state it is applied to *)
+Fixpoint guardedb (E : env) (s : state) (l : list (op * list titem)) : bool :=
+  match l with
+  | [] => true
+  | o :: r => op_guardb E s (fst o) && match step E s o with Ok s' => guardedb E s' r | Err _ => true end
+  end.
+
+Lemma idx_trace E : forall ops s, env_ok E -> IdxJ s -> guardedb E s ops = true ->
+  forall s', In (Ok s') (trace_ops E s ops) -> IdxJ s'.
+Proof.
+  induction ops as [|o ops IH]; intros s HE HJ Hg s' Hin; simpl in Hin; [contradiction|].
+  simpl in Hg. apply andb_prop in Hg as [Hg1 Hg2].
+  destruct (step E s o) as [s1|er] eqn:Es.
+  - pose proof (step_guarded_pres _ _ _ _ HE HJ Hg1 Es) as HJ1.
+    destruct Hin as [Hin|Hin]; [injection Hin as <-; exact HJ1|]. eapply IH; eassumption.
+  - destruct Hin as [Hin|[]]. discriminate.
+Qed.
+
+Lemma idx_run E : forall ops s s', env_ok E -> IdxJ s -> guardedb E s ops = true -> run_ops E s ops = Ok s' -> IdxJ s'.
+Proof.
+  induction ops as [|o ops IH]; intros s s' HE HJ Hg H; simpl in H.
+  - injection H as <-. exact HJ.
+  - simpl in Hg. apply andb_prop in Hg as [Hg1 Hg2]. bind_inv2 H s1 E1.
+    apply (IH s1); [exact HE| |exact Hg2|exact H]. eapply step_guarded_pres; eassumption.
+Qed.
+
+(* headline: every state reached from the empty state, after every operation of a guarded run *)
+Lemma idx_reachable E ops s' :
+  env_ok E -> guardedb E init_state ops = true -> In (Ok s') (trace_ops E init_state ops) ->
+  idx_found s' /\ idx_slots s' /\ idx_unique s'.
+Proof.
+  intros HE Hg Hin. pose proof (idx_trace E ops init_state HE (proj1 idx_init) Hg s' Hin) as [Hf Hs].
+  split; [exact Hf|]. split; [exact Hs|exact (idx_found_unique s' Hf)].
+Qed.
+
+(* the executable model's conventions (un_env) satisfy env_ok whenever they describe the code as it is *)
+Lemma env_ok_wire oipf csf pf inf :
+  env_ok (mkEnv oipf (fun sd => mk_conv (csf sd)) pf inf false).
+Proof. split; [reflexivity|]. intros sd. simpl. apply (cv_std_ok (csf sd) false). Qed.
+
+(* ------------------------------------------------------------------ refutations *)
+(* forget_oid drops the index slots of an entry that keeps its id *)
+Definition forget_preserves_full : Prop :=
+  forall s sd o s', IdxJ s -> forget_oid s sd o = Ok s' -> IdxJ s'.
+Definition w_forget : list (op * list titem) :=
+  [ (OUpdate false (Some File) (Some w_o1) (Some w_pbx) None (Some true) None, [TSwap false]) ].
+Lemma E_id_ok : env_ok E_id.
+Proof. apply (env_ok_wire (fun _ => false) (fun _ => true) (fun _ => 1000%N) (fun _ _ => None)). Qed.
+Lemma forget_refuted : ~ forget_preserves_full.
+Proof.
+  intros H.
+  destruct (run_ops E_id init_state w_forget) as [s|] eqn:R; [|vm_compute in R; discriminate].
+  assert (HJ: IdxJ s).
+  { eapply (idx_run E_id w_forget init_state); [exact E_id_ok|exact (proj1 idx_init)|vm_compute; reflexivity|exact R]. }
+  destruct (forget_oid s false w_o1) as [s'|] eqn:F.
+  2:{ vm_compute in R. injection R as <-. vm_compute in F. discriminate. }
+  specialize (H _ _ _ _ HJ F). vm_compute in R. injection R as <-. vm_compute in F. injection F as <-.
+  destruct H as [Hf _]. destruct (Hf 0 false w_o1 eq_refl) as [Ha _]. vm_compute in Ha. discriminate.
+Qed.
